@@ -1,10 +1,14 @@
 import KVerif.Drv.C10
+import KVerif.Drv.Lay
+import KVerif.Drv.C04
 open KVerif.Drv
 
 /-- kvdrv <prop>: one case line in, one `M <model> ## S <spec>` line out. -/
 def dispatch (prop : String) : Option (String → String × String) :=
   match prop with
   | "C10" => some C10.run
+  | "C04" => some C04.run
+  | "LALL" => some (Lay.run "LAY")
   | _ => none
 
 partial def loop (h : IO.FS.Stream) (out : IO.FS.Stream) (f : String → String × String) : IO Unit := do
